@@ -51,7 +51,7 @@ func genWorkload(t *rapid.T) wl.Workload {
 			w.Ops = append(w.Ops, wl.Op{K: "get", A: rapid.IntRange(0, 3).Draw(t, "a")})
 		default:
 			// reopen, often twice in a row (Open; Close; Open; append is the interesting shape)
-			w.Ops = append(w.Ops, wl.Op{K: "reopen"})
+			w.Ops = append(w.Ops, wl.Op{K: rapid.SampledFrom([]string{"reopen", "reopen", "reopenlost"}).Draw(t, "reopenKind")})
 			if rapid.Bool().Draw(t, "twice") {
 				w.Ops = append(w.Ops, wl.Op{K: "reopen"})
 			}
@@ -127,7 +127,7 @@ func runTraced(own func(sig string) bool) func(w wl.Workload) common.Result {
 		}
 		res.Sub = 1
 		res.NonTrivial = st.FirstCommitNewSegment && st.Rotation && st.Deletion && st.CommitIntoOpenedFile
-		for k, on := range map[string]bool{"first-commit-new-segment": st.FirstCommitNewSegment, "rotation": st.Rotation, "deletion": st.Deletion, "commit-into-opened-file": st.CommitIntoOpenedFile, "set-acked": st.SetOK > 0} {
+		for k, on := range map[string]bool{"first-commit-new-segment": st.FirstCommitNewSegment, "rotation": st.Rotation, "deletion": st.Deletion, "commit-into-opened-file": st.CommitIntoOpenedFile, "set-acked": st.SetOK > 0, "never-committed-tail-lost-before-open": st.LostTail > 0} {
 			if on {
 				res.Classes = append(res.Classes, k)
 			}
